@@ -232,7 +232,14 @@ func (db *MultiBucketBackend) getBucketWithArbitraryPrefixLocked(bucket string, 
 		}
 		objectName := parts[1]
 
-		if !prefix.Match(objectName, nil) {
+		var match gofakes3.PrefixMatch
+		if !prefix.Match(objectName, &match) {
+			return nil
+		}
+		if match.CommonPrefix {
+			// The delimiter is not "/" (that one is served from the directory
+			// tree): keys are grouped by it all the same.
+			response.AddPrefix(match.MatchedPart)
 			return nil
 		}
 
@@ -260,6 +267,9 @@ func (db *MultiBucketBackend) getBucketWithArbitraryPrefixLocked(bucket string, 
 	// keys ('a/b' would come before 'a-b'); S3 lists keys in byte order.
 	sort.Slice(response.Contents, func(i, j int) bool {
 		return response.Contents[i].Key < response.Contents[j].Key
+	})
+	sort.Slice(response.CommonPrefixes, func(i, j int) bool {
+		return response.CommonPrefixes[i].Prefix < response.CommonPrefixes[j].Prefix
 	})
 
 	return response, nil
